@@ -27,7 +27,7 @@ def run(ctx):
     for sv in csm["spec_violations"]:
         ctx.note("ColangSM design-level counterexample to %s (program follows)\n%s\n%s" % (sv["invariant"], sv["program"], sv["counterexample"][:1500]))
     for t in csm["traces"]:
-        srcs.setdefault(t["origin"], "")
+        srcs.setdefault(t["origin"], t.get("source", ""))
     traces += csm["traces"]
     steps = sum(len(t["steps"]) for t in traces)
     ctx.log("%d traces / %d recorded states (%d from the repository's tests), %d escaping exceptions" % (len(traces), steps, ntests, len(errors)))
